@@ -46,6 +46,13 @@ Proof.
   intros [_ H]. vm_compute in H. discriminate.
 Qed.
 
+(* DEFECT: FixedMessage only defines the py2 name __div__; `/ real` goes through AbstractMessage.__truediv__
+   and subtracts log(real) from log_norm, whereas `* real` is the identity: (f * c) / c is not f *)
+Definition fx : qmsg := mkmsg FFixed true [[2]] (1 # 2) 9%Z neg_infinity infinity.
+Lemma fixed_sdiv_refuted : exists (a : qmsg) (c : Q), fam a = FFixed /\
+  b_sdiv Qops pinned (b_smul Qops a c) c <> a /\ b_sdiv Qops applied3 (b_smul Qops a c) c <> a.
+Proof. exists fx, 3. split; [reflexivity|]. split; intro H; apply (f_equal lognorm) in H; vm_compute in H; discriminate. Qed.
+
 (* DEFECT 2: arithmetic on a transformed message loses its limits *)
 Lemma float_neq (a b : float) : fbits_eqb a b = false -> a <> b.
 Proof. intros H E. subst. unfold fbits_eqb in H. destruct (Prim2SF b) as [s|s| |s m e]; simpl in H;
@@ -71,7 +78,7 @@ Proof. vm_compute. reflexivity. Qed.
 (* ---------- binary64 witnesses ---------- *)
 Local Close Scope Q_scope.
 Definition tb0 : tabs :=
-  mktabs [(0.5%float, 0.25%float); (0.25%float, 0.0625%float); (1%float, 1%float); (2%float, 4%float); (infinity, infinity)] [] [] [] [] [] [] [] [].
+  mktabs [(0.5%float, 0.25%float); (0.25%float, 0.0625%float); (1%float, 1%float); (2%float, 4%float); (infinity, infinity)] [] [] [] [] [] [] [] [] [] [].
 Definition n1 : msg (T := float) := mkmsg FNormal true [[1%float; 0.5%float]] 0%float 7%Z neg_infinity infinity.
 Definition un1 : mval (T := float) := MT [TPhi] None neg_infinity infinity n1.
 
